@@ -66,7 +66,8 @@ RULE = ('type-directed: an exception class is drawn from a catalogue generated f
         '(builtins incl. OSError/UnicodeDecodeError/ExceptionGroup whose C constructors rewrite or validate args, '
         'glom\'s own classes, user classes over one or SEVERAL bases (Exception/builtin/GlomError/TypeMatchError/'
         'KeyboardInterrupt, GlomError as a mix-in before or after a builtin) with store-all, no-super, prefix, len '
-        '(arity-changing), const, reversing, validating (ValueError), keyword-only, fixed-arity constructors, falsy instances, a user '
+        '(arity-changing), const, reversing, validating (ValueError), keyword-only, fixed-arity constructors, falsy instances, '
+        '__eq__/__hash__ overridden, __slots__, a user '
         '__reduce__ / __copy__, two-level subclasses), built with arguments that fit its signature (sometimes '
         '.args reassigned afterwards, __cause__/__context__ set, or the CLASS raised instead of an instance); the '
         'fault is raised by a callable spec, the function of Call/Invoke/T(...), a default_factory, a Coalesce '
@@ -129,11 +130,17 @@ def real_class(name):
     raise KeyError(name)
 
 
-def make_class(name, bases, shape, falsy, copy_kind='args', sealed=False, frozen=False):
+def make_class(name, bases, shape, falsy, copy_kind='args', sealed=False, frozen=False, eqhash=False, slots=False):
     """Python class from the shape data (the Lean reading of the same data is `Shape.construct`)."""
     ns = {}
     if falsy:
         ns['__bool__'] = lambda self: False
+    if eqhash:          # never equal to anything (itself included), unhashable: glom must go by identity
+        ns['__eq__'] = lambda self, other: False
+        ns['__ne__'] = lambda self, other: True
+        ns['__hash__'] = None
+    if slots:
+        ns['__slots__'] = ('extra',)
     if copy_kind == 'self':
         ns['__copy__'] = lambda self: self
     elif copy_kind == 'foreign':
@@ -220,7 +227,8 @@ def _build_classes(specs):
     for c in specs:
         bases = [table.get(b) or real_class(b) for b in bases_of(c)]
         table[c['name']] = make_class(c['name'], bases, c.get('shape'), c.get('falsy', False),
-                                      c.get('copy', 'args'), c.get('sealed', False), c.get('frozen', False))
+                                      c.get('copy', 'args'), c.get('sealed', False), c.get('frozen', False),
+                                      c.get('eqhash', False), c.get('slots', False))
     return table
 
 
@@ -748,6 +756,10 @@ def gen_exception(rng):
         elif rng.random() < 0.05:
             copy_kind = 'self'
         c1 = {'name': 'U1', 'bases': bases, 'shape': shape, 'falsy': rng.random() < 0.08, 'copy': copy_kind}
+        if rng.random() < 0.08:
+            c1['eqhash'] = True
+        if rng.random() < 0.08:
+            c1['slots'] = True
         classes.append(c1)
         name = 'U1'
         if rng.random() < 0.2:
